@@ -317,6 +317,14 @@ Proof.
   - rewrite IH by (cbn in Hi; lia). destruct fl; [destruct i; reflexivity | reflexivity].
 Qed.
 
+Lemma reread_shape fs t :
+  tree_perm t (reread fs t) /\ reread flags_json t = t /\
+  (forall fl lv i, (i < length lv)%nat ->
+     nth i (reread_level fl lv) (0, []) =
+     (fst (nth i lv (0, [])),
+      if nth i fl false then zsort (snd (nth i lv (0, []))) else snd (nth i lv (0, [])))).
+Proof. split; [apply reread_perm|]. split; [apply reread_json_id | exact reread_level_nth]. Qed.
+
 Theorem reread_preserves fs t : validate t = true -> wf t ->
   validate (reread fs t) = true /\ wf (reread fs t) /\ length (reread fs t) = length t /\
   (forall k, nodes (nth k (reread fs t) []) = nodes (nth k t [])) /\
